@@ -151,6 +151,25 @@ pub fn compare(model: &RefLexer, real: &RealLexer, input: &str) -> Result<CmpInf
     Ok(info)
 }
 
+/// Finding F15: does the real lexer agree with a reference lexer in which
+/// every regex with a nested repetition is replaced by the way regex-syntax
+/// prints it (`(?:a{2})?` -> `a{2}?`)?
+fn explained_by_printed_nested_repetition(model_json: &Value, real: &RealLexer, input: &str) -> bool {
+    let mut m = model_json.clone();
+    let mut any = false;
+    if let Some(a) = m.as_array_mut() {
+        for e in a {
+            if e["kind"] == "re" {
+                if let Some(p) = crate::lexmodel::printed_if_nested(e["text"].as_str().unwrap_or("")) {
+                    e["text"] = json!(p);
+                    any = true;
+                }
+            }
+        }
+    }
+    any && RefLexer::from_json(&m).map_or(false, |alt| compare(&alt, real, input).is_ok())
+}
+
 fn end_kind(e: &RealEnd) -> &'static str {
     match e {
         RealEnd::Eof => "eof",
@@ -278,6 +297,9 @@ fn eval_grammar(cli: &Path, dir: &Path, text: &str, model_json: &Value, inputs: 
                 // directed templates carry their own root-cause key
                 let sig = match template {
                     Some(t) => format!("C09/{t}/{}", sig.trim_start_matches("C09/").replace('/', "-")),
+                    None if explained_by_printed_nested_repetition(model_json, &real, input) => {
+                        "C09/nested-repetition-rendering".to_string()
+                    }
                     None => sig,
                 };
                 let shown: String = if input.len() > 80 { format!("{:?}.. ({} bytes)", &input[..60], input.len()) } else { format!("{input:?}") };
